@@ -93,6 +93,20 @@ def parse_obs(s):
     return out
 
 
+def norm_step(step):
+    """a step 'res#i@k=els&...' with sharing restricted to objects that have elements (buffers renumbered by first
+    occurrence among those); used when the child reports that it cannot see the buffer of element-less objects"""
+    res, sep, obs = step.partition('#')
+    if not sep:
+        return step
+    canon, parts = {}, []
+    for part in obs.split('&') if obs else []:
+        head, _, els = part.partition('=')
+        i, _, k = head.partition('@')
+        parts.append(f'{i}@{"~" if els == "-" else canon.setdefault(k, len(canon))}={els}')
+    return res + '#' + '&'.join(parts)
+
+
 def parse_lay(s):
     """'0=0,0:0.2,2.1' -> {0: (buf, is_view, [(0,2),(2,1)])}"""
     out = {}
